@@ -167,29 +167,40 @@ def register_more(reg):
                   "* exp(- EXP_FACTOR / (self.te * wvl))")],
         modifies=[])
 
+    DENS_OK = ("forall(j, 0 <= j and j < nsp() and sp(j).charge > 0, Dn(cnt(j)) == dn(j))")
     reg.contract(B, "Bremsstrahlung.emission", PROP, sorts=PT, name='bins',
         ghost={"ne()": EL["ne()"], "te()": EL["te()"], "S(k)": "spectrum.samples_mv[k]",
-               "edge(k)": "spectrum.min_wavelength + spectrum.delta_wavelength * k"},
+               "edge(k)": "spectrum.min_wavelength + spectrum.delta_wavelength * k",
+               "comp()": "as_seq(self._plasma.get_composition())", "nsp()": "length(comp())",
+               "sp(j)": "typed(comp()[j], 'Species')",
+               "dn(j)": "sp(j).distribution.density(point.x, point.y, point.z)",
+               "Dn(m)": "self._brems_func.species_density_mv[m]"},
+        consts={"cnt": "fn:int->int"},
+        axioms=["cnt(0) == 0", "forall(j, j >= 0, cnt(j + 1) == cnt(j) + ite(sp(j).charge > 0, 1, 0))"],
         requires=SPECTRUM_OK + ["not is_none(self._plasma)", "not is_none(self._brems_func)", "not is_none(self._integrator)",
                                 "not is_none(self._brems_func.species_charge)",
                                 "not is_none(self._brems_func.species_density_mv)",
                                 "not same(self._brems_func.species_density_mv, spectrum.samples_mv)",
                                 "same(self._integrator.function, self._brems_func)"],
         externals={'Composition.__iter__': {'kind': 'pure', 'result': 'seq:ref', 'doc': 'iteration order of the composition'}},
-        loops={0: dict(index='k', invariant=["unchanged_except('$d1:real', self._brems_func.species_density_mv)", "0 <= i"],
+        loops={0: dict(index='k', invariant=["unchanged_except('$d1:real', self._brems_func.species_density_mv)", "0 <= i", "0 <= k",
+                                             "i == cnt(k)", "forall(j, 0 <= j and j <= k, cnt(j) <= i)",
+                                             "forall(j, 0 <= j and j < k and sp(j).charge > 0, Dn(cnt(j)) == dn(j))"],
                        note='memory safety of species_density_mv[i] depends on the cache/composition coherence of C01'),
                1: dict(invariant=["0 <= i", "lower_wavelength == edge(i)",
                                   "forall(k, 0 <= k and k < i, S(k) == old(S(k)) + self._integrator.evaluate(edge(k), edge(k + 1)) / spectrum.delta_wavelength)",
                                   "forall(k, not (0 <= k and k < i), S(k) == old(S(k)))",
                                   "self._brems_func.ne == ne() and self._brems_func.te == te()",
-                                  "same(self._integrator.function, self._brems_func)"])},
+                                  "same(self._integrator.function, self._brems_func)", DENS_OK])},
         flags={'skip_bounds': ['self._brems_func.species_density_mv']},
         ensures=[("identity", "same(result, spectrum)"),
                  ("dark", "implies(ne() <= 0 or te() <= 0, forall(k, S(k) == old(S(k))))"),
                  ("bin_average", "implies(ne() > 0 and te() > 0, forall(k, 0 <= k and k < spectrum.bins, "
                   "S(k) == old(S(k)) + self._integrator.evaluate(edge(k), edge(k + 1)) / spectrum.delta_wavelength))"),
                  ("integrand_state", "implies(ne() > 0 and te() > 0, self._brems_func.ne == ne() and self._brems_func.te == te() "
-                  "and same(self._integrator.function, self._brems_func))")])
+                  "and same(self._integrator.function, self._brems_func))"),
+                 # the integrand sees the LOCAL density of every charged species, in composition order (no value left from an earlier point)
+                 ("integrand_densities", "implies(ne() > 0 and te() > 0, %s)" % DENS_OK)])
 
 
 _register0 = register
@@ -219,3 +230,46 @@ def _constants(ctx, eng):
 
 
 GENERATORS = [_constants]
+
+
+def native_replay(ctx, o):
+    """Bremsstrahlung obligations: the real compiled model is evaluated at a sequence of points of a plasma whose impurity exists in one half
+    only (density 0 or negative in the other half); every value is compared with a FRESH model instance evaluated at that point alone."""
+    if 'Bremsstrahlung.emission' not in o.name:
+        return None
+    from replaylib.native import run_native
+    code = """
+import numpy as np, scipy.constants as const
+from raysect.optical import World, Point3D, Vector3D, Spectrum
+from raysect.primitive import Box
+from cherab.core import Plasma, Species, Maxwellian
+from cherab.core.atomic import AtomicData, MaxwellianFreeFreeGauntFactor, deuterium, nitrogen
+from cherab.core.model import Bremsstrahlung
+def build(outside):
+    w = World(); p = Plasma(parent=w); p.geometry = Box(Point3D(0, -0.5, -0.5), Point3D(1, 0.5, 0.5))
+    v0 = Vector3D(0, 0, 0)
+    p.electron_distribution = Maxwellian(1e19, 2000., v0, const.m_e); p.b_field = v0
+    dens = lambda x, y, z: 1e18 if x < 0.5 else outside
+    p.composition = [Species(deuterium, 1, Maxwellian(1e19, 2000., v0, deuterium.atomic_weight * const.atomic_mass)),
+                     Species(nitrogen, 7, Maxwellian(dens, 2000., v0, nitrogen.atomic_weight * const.atomic_mass))]
+    p.atomic_data = AtomicData()
+    m = Bremsstrahlung(gaunt_factor=MaxwellianFreeFreeGauntFactor()); p.models = [m]
+    return w, p, m
+def emit(m, pt):
+    s = Spectrum(400., 800., 8); m.emission(pt, Vector3D(1, 0, 0), s); return s.samples.copy()
+bad = []
+for outside in (0.0, -1e18):
+    w, p, m = build(outside)
+    for pt in (Point3D(0.75, 0, 0), Point3D(0.25, 0, 0), Point3D(0.75, 0, 0), Point3D(0.9, 0.1, -0.2)):
+        got = emit(m, pt)
+        w2, p2, m2 = build(outside)
+        want = emit(m2, pt)
+        if not np.allclose(got, want, rtol=1e-9, atol=0):
+            bad.append({"impurity_density_for_x_ge_0.5": outside, "point": [pt.x, pt.y, pt.z], "after_earlier_points": float(got.sum()), "fresh_model": float(want.sum())})
+print(json.dumps({"bad": bad[:4], "nbad": len(bad)}))
+"""
+    out = run_native(ctx, code, timeout=300)
+    exp = 'emission at a point depends on the local densities only (same as a fresh model instance)'
+    if out and out.get('nbad'):
+        return {'confirmed': True, 'input': out['bad'][0], 'observed': out, 'expected': exp}
+    return {'confirmed': False, 'input': None, 'observed': out, 'expected': exp}
